@@ -21,6 +21,7 @@ Encoding: bytes in hex, `-` = empty byte string; entry lists `e,e,...` with `~` 
   depth                            -> `depth N`                        (deepest pointer of the tree)
   chunks SIZE                      -> `chunks N ENTRIES|ENTRIES|...`   (sequential chunker, V0 proofs)
   pchunks SIZE THREADS             -> `chunks N ENTRIES|...`           (parallel chunker)
+  cover                            -> `cover ok` | `cover MISSING`     (every node of the tree is in some chunk of the last list)
   restore ORDER                    -> `restored COUNT ROOTOK`          (restorer model over the last chunk list)
 -/
 namespace OasisModel.Mkvs.ProofDriver
@@ -125,6 +126,9 @@ def step (st : St) (line : String) : St × String :=
       ({ st with chunks := cs },
         "chunks " ++ toString cs.length ++ " " ++ "|".intercalate (cs.map showEntries))
     | _, _ => (st, "ERR parse")
+  | ["cover"] =>
+    let (st, h) := st.htrie
+    (st, if coverB sha (h.hash (sha [])) st.trie st.chunks then "cover ok" else "cover MISSING")
   | ["restore", order] =>
     match parseNats order with
     | some order =>
